@@ -123,3 +123,19 @@ func verifPBBaseChannelProposal(x client.BaseChannelProposal) (y client.BaseChan
 func verifPBBaseChannelProposalAcc(x client.BaseChannelProposalAcc) client.BaseChannelProposalAcc {
 	return ToBaseChannelProposalAcc(FromBaseChannelProposalAcc(x))
 }
+
+func verifPBChannelProposalRejMsg(x *client.ChannelProposalRejMsg) *client.ChannelProposalRejMsg {
+	return ToChannelProposalRejMsg(FromChannelProposalRejMsg(x))
+}
+
+func verifPBChannelUpdateAccMsg(x *client.ChannelUpdateAccMsg) *client.ChannelUpdateAccMsg {
+	return ToChannelUpdateAccMsg(FromChannelUpdateAccMsg(x))
+}
+
+func verifPBChannelUpdateRejMsg(x *client.ChannelUpdateRejMsg) *client.ChannelUpdateRejMsg {
+	return ToChannelUpdateRejMsg(FromChannelUpdateRejMsg(x))
+}
+
+func verifPBSubChannelProposalAccMsg(x *client.SubChannelProposalAccMsg) *client.SubChannelProposalAccMsg {
+	return ToSubChannelProposalAccMsg(FromSubChannelProposalAccMsg(x))
+}
